@@ -34,11 +34,11 @@ FUNCTIONS = [
 BOUNDS = ("one problem family inside DurativeActionToProcesses.supported_kind(): F (fixed constant duration, symbolic), P(k) (fixed duration "
           "k resp. k+1 read from a bounded int parameter, k symbolic), V (duration interval [1,12] ticks, end effect), W (duration interval, "
           "effect at end-1 tick: the compiled end action fires before the end), I (instantaneous), conditions/effects on Boolean fluents; "
-          "plans of 1..3 timed instances from 14 instance lists incl. F,F / P(k),P(k) / V,V with equal parameters; start times in 0..12 ticks, "
+          "plans of 1..3 (thorough: 4) timed instances from 17 (thorough: 28) instance lists incl. F,F / P(k),P(k) / V,V with equal parameters; start times in 0..12 ticks, "
           "durations in 1..8 ticks, all symbolic (quick: the compile step is run natively when every duration constant is concrete)")
 OUTSIDE = ("plans that give a fixed-duration action another duration than its fixed one; two instances of the same variable-duration action "
            "with the same parameters that properly overlap (the kind has no SELF_OVERLAPPING); fluent-dependent durations (unsupported); "
-           "more than 3 instances; denominators other than 1")
+           "more than 4 instances; denominators other than 1")
 ASSUMPTIONS = [
     "the plan gives every instance of a fixed-duration action exactly its fixed duration (back conversion recomputes it from the action)",
     "for a variable-duration action whose first end timing is end-delta, duration > delta (asserted by _forward_plan_to_plan)",
@@ -275,6 +275,11 @@ def shards(tier, seed):
         sh("F-F-F-symkd", [F, F, F], sym=dict(kd=[1, 8], s0=SW, s1=SW, s2=SW))
         sh("F-W-V-symkd", [F, W, V], sym=dict(kd=[1, 8], s0=SW, s1=SW, s2=SW, d1=DW, d2=DW))
         sh("Q0-P1-W", [Q0, P1_, W], sym=dict(s0=SW, s1=SW, s2=SW, d2=DW, k0=[1, 4], k1=KW))
+        sh("V-V-V-V", [V, V, V, V])
+        sh("F-V-W-I", [F, V, W, I])
+        sh("P0-P0-V-V", [P0, P0, V, V])
+        sh("W-W-I-W", [W, W, I, W])
+        sh("P0-P1-F-F", [P0, P1_, F, F])
     return out
 
 
